@@ -8,6 +8,7 @@ import Astisub.Driver.VTT
 import Astisub.Driver.SSA
 import Astisub.Driver.Teletext
 import Astisub.Driver.TTML
+import Astisub.Driver.STL
 
 open Astisub Astisub.Driver Astisub.Proto
 
@@ -27,6 +28,7 @@ def handleLine (line : String) : Verdict :=
     else if op.startsWith "ssa." then handleSSA op args impl
     else if op.startsWith "teletext." then handleTeletext op args impl
     else if op.startsWith "ttml." then handleTTML op args impl
+    else if op.startsWith "stl." then handleSTL op args impl
     else .bad s!"unknown stream {op}"
 
 structure Stats where
